@@ -92,4 +92,234 @@ theorem xResolution_small (n d : Nat) : (xResolution n d).Small := by
 theorem yResolution_small (n d : Nat) : (yResolution n d).Small := by
   unfold yResolution; split <;> constructor <;> simp [asRational, K.asRational, K.yResolution, K.yResolutionDen0]
 
+/-! ## the entries of a directory the writer produced -/
+
+section page
+variable (cfg : Cfg) (f : Frame) (L : Layout) (desc : Bytes)
+
+theorem ifdTags_small (hc : desc.length + 1 < 2 ^ 64) : ∀ t ∈ ifdTags cfg f L desc, t.Small := by
+  intro t ht
+  simp only [ifdTags, fixedTags, List.mem_append, List.mem_cons, List.mem_nil_iff, or_false] at ht
+  rcases ht with (h | h | h | h | h | h | h | h | h | h | h | h | h | h | h) | h <;> subst h <;>
+    first
+    | exact xResolution_small _ _
+    | exact yResolution_small _ _
+    | (constructor <;>
+        simp [imageWidth, imageLength, bitsPerSample, uncompressed, photometricBlackIsZero, stripOffsets, rowsPerStrip,
+          stripByteCounts, resolutionUnitCentimeter, orientationTopLeft, sampleFormat, samplesPerPixelGrayscale,
+          newSubfileTypeMultipage, descTag, asU16, asU32, asU64, K.asU16, K.asU32, K.asU64, K.imageWidth, K.imageLength,
+          K.bitsPerSample, K.compression, K.photometric, K.stripOffsets, K.rowsPerStrip, K.stripByteCounts,
+          K.resolutionUnit, K.orientation, K.sampleFormat, K.samplesPerPixel, K.newSubfileType,
+          K.imageDescriptionLong10] <;> omega)
+
+local macro "tag_simp" : tactic =>
+  `(tactic| simp [ifdTags, fixedTags, scalar, findEntry, toEntry, imageWidth, imageLength, bitsPerSample, uncompressed,
+      photometricBlackIsZero, stripOffsets, rowsPerStrip, stripByteCounts, resolutionUnitCentimeter, orientationTopLeft,
+      sampleFormat, samplesPerPixelGrayscale, newSubfileTypeMultipage, descTag, asU16, asU32, asU64, K.asU16, K.asU32,
+      K.asU64, K.imageWidth, K.imageLength, K.bitsPerSample, K.compression, K.photometric, K.stripOffsets,
+      K.rowsPerStrip, K.stripByteCounts, K.resolutionUnit, K.orientation, K.sampleFormat, K.samplesPerPixel,
+      K.newSubfileType, K.imageDescriptionLong10, xResolution_tag])
+
+theorem scalar_width (hw : f.width < 2 ^ 32) : scalar ((ifdTags cfg f L desc).map toEntry) 256 = some f.width := by
+  tag_simp; exact decode_u32 _ hw
+
+theorem scalar_height (hw : f.height < 2 ^ 32) : scalar ((ifdTags cfg f L desc).map toEntry) 257 = some f.height := by
+  tag_simp; exact decode_u32 _ hw
+
+theorem scalar_bits (ht : f.type < K.sampleTypeCount) :
+    scalar ((ifdTags cfg f L desc).map toEntry) 258 = some (8 * bytesOfType f.type) := by
+  tag_simp
+  have h1 := bits_small f.type ht
+  have h2 : 8 * bytesOfType f.type % 65536 < 256 ^ 2 := Nat.mod_lt _ (by omega)
+  simp only [Nat.reducePow] at h1
+  rw [decodeLE_leBytes_lt _ _ h2, h1]
+
+theorem scalar_stripOffset (hd : L.dataOff < 2 ^ 64) :
+    scalar ((ifdTags cfg f L desc).map toEntry) 273 = some L.dataOff := by
+  tag_simp; exact decode_u64 _ hd
+
+theorem scalar_stripByteCount (hd : f.data.length < 2 ^ 64) :
+    scalar ((ifdTags cfg f L desc).map toEntry) 279 = some f.data.length := by
+  tag_simp; exact decode_u64 _ hd
+
+theorem scalar_sampleFormat : scalar ((ifdTags cfg f L desc).map toEntry) 339 = some (sampleFormatCode f.type) := by
+  rcases yResolution_tag (10000 * 10000) (resolutionDen cfg.scaleMilliY) with hy | hy <;>
+  · tag_simp
+    simp [hy]
+    exact decode_u16 _ (sampleFormatCode_small _)
+
+theorem find_desc : findEntry ((ifdTags cfg f L desc).map toEntry) 270 = some (toEntry (descTag L.strOff desc)) := by
+  rcases yResolution_tag (10000 * 10000) (resolutionDen cfg.scaleMilliY) with hy | hy <;>
+  · tag_simp
+    simp [hy]
+
+theorem entryIndex_desc : entryIndex ((ifdTags cfg f L desc).map toEntry) 270 = 15 := by
+  rcases yResolution_tag (10000 * 10000) (resolutionDen cfg.scaleMilliY) with hy | hy <;>
+  · simp [entryIndex, ifdTags, fixedTags, toEntry, List.findIdx_cons, imageWidth, imageLength, bitsPerSample, uncompressed,
+      photometricBlackIsZero, stripOffsets, rowsPerStrip, stripByteCounts, resolutionUnitCentimeter, orientationTopLeft,
+      sampleFormat, samplesPerPixelGrayscale, newSubfileTypeMultipage, descTag, asU16, asU32, asU64, K.imageWidth,
+      K.imageLength, K.bitsPerSample, K.compression, K.photometric, K.stripOffsets, K.rowsPerStrip, K.stripByteCounts,
+      K.resolutionUnit, K.orientation, K.sampleFormat, K.samplesPerPixel, K.newSubfileType, K.imageDescriptionLong10,
+      xResolution_tag, hy]
+
+end page
+
+theorem descOf_length (cfg : Cfg) (idx : Nat) (f : Frame) : 7 < (descOf cfg idx f).length := by
+  unfold descOf; split <;> simp [descMeta, descPlain, sFrameId] <;> omega
+
+/-- the reader's page for one directory of the writer -/
+theorem mkPage_of_holds {F : Bytes} (cfg : Cfg) (idx : Nat) (f : Frame) (L : Layout) (nxt : Nat)
+    (hw : f.WF) (hdata : Holds F L.dataOff f.data) (hstr : Holds F L.strOff (descOf cfg idx f ++ [0]))
+    (hds : L.dataOff + f.data.length ≤ L.strOff) (hs64 : L.strOff + ((descOf cfg idx f).length + 1) < 2 ^ 64) :
+    mkPage F L.ifdOff ((ifdTags cfg f L (descOf cfg idx f)).map toEntry) nxt = some (pageOf cfg idx f L nxt) := by
+  have hsb := hstr.bound (by simp)
+  simp only [List.length_append, List.length_cons, List.length_nil] at hsb
+  have hdl := descOf_length cfg idx f
+  have r1 := scalar_width cfg f L (descOf cfg idx f) hw.width
+  have r2 := scalar_height cfg f L (descOf cfg idx f) hw.height
+  have r3 := scalar_bits cfg f L (descOf cfg idx f) hw.type
+  have r4 := scalar_sampleFormat cfg f L (descOf cfg idx f)
+  have r5 := scalar_stripOffset cfg f L (descOf cfg idx f) (by omega)
+  have r6 := scalar_stripByteCount cfg f L (descOf cfg idx f) (by omega)
+  have r7 := hdata.slice (by omega)
+  have r8 := find_desc cfg f L (descOf cfg idx f)
+  have r9 : slice? F L.strOff ((descOf cfg idx f).length + 1) = some (descOf cfg idx f ++ [0]) :=
+    hstr.slice' (by simpa using hsb) (by simp)
+  have r10 : decodeLE (leBytes 8 L.strOff) = L.strOff := decode_u64 _ (by omega)
+  have hni : ¬ ((descOf cfg idx f).length + 1 ≤ 8) := by omega
+  simp [mkPage, r1, r2, r3, r4, r5, r6, r7, r8, toEntry, descTag, K.imageDescriptionLong10, hni, r10, r9, pageOf,
+    ifdTags_length, K.ntags]
+
+/-! ## following the chain -/
+
+theorem readChain_mono (F : Bytes) (n k off : Nat) (ps : List Page) (h : readChain F n off = some ps) :
+    readChain F (n + k) off = some ps := by
+  induction n generalizing off ps with
+  | zero => simp [readChain] at h
+  | succ n ih =>
+    rw [Nat.add_right_comm]
+    simp only [readChain] at h ⊢
+    split
+    · simp_all
+    · rename_i hne
+      rw [if_neg hne] at h
+      cases hr : readIfd F off with
+      | none => simp [hr] at h
+      | some r =>
+        obtain ⟨es, next⟩ := r
+        simp only [hr, Option.bind_eq_bind, Option.bind_some] at h ⊢
+        cases hp : mkPage F off es next with
+        | none => simp [hp] at h
+        | some page =>
+          simp only [hp, Option.bind_some] at h ⊢
+          cases hc : readChain F n next with
+          | none => simp [hc] at h
+          | some rest =>
+            simp only [hc, Option.bind_some] at h
+            simp [ih next rest hc, h]
+
+theorem endOff_ge (cfg : Cfg) (last idx : Nat) (frames : List Frame) : last ≤ endOff cfg last idx frames := by
+  induction frames generalizing last idx with
+  | nil => exact Nat.le_refl _
+  | cons f rest ih =>
+    have ho := layout_order last f.data.length (descOf cfg idx f).length
+    have := ih (frameLayout cfg last idx f).next (idx + 1)
+    simp only [endOff, frameLayout] at *
+    omega
+
+/-- where the chain starts: the first directory, or 0 for no frames -/
+def chainStart (last : Nat) (frames : List Frame) : Nat := if frames.isEmpty then 0 else align8 last
+
+theorem readChain_of_framesIn {F : Bytes} (cfg : Cfg) (last idx : Nat) (frames : List Frame)
+    (h : FramesIn F cfg 0 last idx frames) (hw : ∀ f ∈ frames, f.WF) (h64 : endOff cfg last idx frames < 2 ^ 64)
+    (hl : 0 < last) :
+    readChain F (frames.length + 1) (chainStart last frames) = some (pagesFrom cfg last idx frames) := by
+  induction frames generalizing last idx with
+  | nil => simp [readChain, chainStart, pagesFrom]
+  | cons f rest ih =>
+    have ho := layout_order last f.data.length (descOf cfg idx f).length
+    have hk : K.sizeofIfd = 336 := rfl
+    simp only [FramesIn] at h
+    obtain ⟨hbody, hnext, hdata, hstr, hrest⟩ := h
+    have hend := endOff_ge cfg (frameLayout cfg last idx f).next (idx + 1) rest
+    rw [endOff_cons] at h64
+    have hne : chainStart last (f :: rest) ≠ 0 := by
+      simp only [chainStart, List.isEmpty_cons, Bool.false_eq_true, if_false]
+      have := align8_ge last; omega
+    have hcs : chainStart last (f :: rest) = (frameLayout cfg last idx f).ifdOff := by
+      simp [chainStart, frameLayout, layout]
+    have hsmall := ifdTags_small cfg f (frameLayout cfg last idx f) (descOf cfg idx f)
+      (by simp only [frameLayout] at *; omega)
+    have hnx : (if rest.isEmpty then 0 else (frameLayout cfg last idx f).next) < 2 ^ 64 := by
+      split <;> omega
+    have hlen := ifdTags_length cfg f (frameLayout cfg last idx f) (descOf cfg idx f)
+    have rifd := readIfd_of_holds (ifdTags cfg f (frameLayout cfg last idx f) (descOf cfg idx f))
+      (frameLayout cfg last idx f).ifdOff _ hbody (by rw [hlen]; exact hnext) hsmall (by rw [hlen]; omega) hnx
+    have rpage := mkPage_of_holds cfg idx f (frameLayout cfg last idx f)
+      (if rest.isEmpty then 0 else (frameLayout cfg last idx f).next) (hw f (List.mem_cons_self)) hdata hstr
+      (by simp only [frameLayout] at *; omega) (by simp only [frameLayout] at *; omega)
+    have hrec := ih (frameLayout cfg last idx f).next (idx + 1) hrest
+      (fun g hg => hw g (List.mem_cons_of_mem _ hg)) h64 (by simp only [frameLayout] at *; omega)
+    have hcs2 : chainStart (frameLayout cfg last idx f).next rest =
+        (if rest.isEmpty then 0 else (frameLayout cfg last idx f).next) := by
+      simp only [chainStart, frameLayout, layout, align8_align8]
+    rw [hcs2] at hrec
+    rw [List.length_cons, readChain, if_neg hne, hcs]
+    simp only [List.isEmpty_iff] at rifd rpage hrec
+    simp [rifd, rpage, hrec, pagesFrom]
+
+theorem readHeader_of_holds {F : Bytes} (h : Holds F 0 header) : readHeader F = some K.hdrFirstIfd := by
+  simp only [header] at h
+  rw [holds_append, holds_append, holds_append, holds_append] at h
+  obtain ⟨⟨⟨⟨h1, h2⟩, h3⟩, h4⟩, h5⟩ := h
+  simp only [List.length_append, leBytes_length, Nat.zero_add] at h2 h3 h4 h5
+  have r1 := h1.rdLE (by omega) (by decide)
+  have r2 := h2.rdLE (by omega) (by decide)
+  have r3 := h3.rdLE (by omega) (by decide)
+  have r4 := h4.rdLE (by omega) (by decide)
+  have r5 := h5.rdLE (by omega) (by decide)
+  simp [readHeader, r1, r2, r3, r4, r5, K.hdrFmt, K.hdrVer, K.hdrSizeofOffset, K.hdrZero]
+
+/-- every frame takes at least a directory: the file is longer than the number of frames -/
+theorem framesIn_length {F : Bytes} (cfg : Cfg) (fin last idx : Nat) (frames : List Frame)
+    (h : FramesIn F cfg fin last idx frames) (hne : frames ≠ []) :
+    last + K.sizeofIfd * frames.length ≤ F.length := by
+  induction frames generalizing last idx with
+  | nil => exact absurd rfl hne
+  | cons f rest ih =>
+    have ho := layout_order last f.data.length (descOf cfg idx f).length
+    simp only [FramesIn] at h
+    obtain ⟨_, _, _, hstr, hrest⟩ := h
+    cases rest with
+    | nil =>
+      have hsb := hstr.bound (by simp)
+      simp only [List.length_append, List.length_cons, List.length_nil, frameLayout] at *
+      omega
+    | cons g r =>
+      have := ih (frameLayout cfg last idx f).next (idx + 1) hrest (by simp)
+      have hk : K.sizeofIfd = 336 := rfl
+      simp only [List.length_cons, frameLayout, hk] at *
+      omega
+
+/-- **round trip**: the reader applied to the file of an acquisition returns the expected pages -/
+theorem readTiff_tiffFile (old : Bytes) (cfg : Cfg) (frames : List Frame) (hne : frames ≠ [])
+    (hw : ∀ f ∈ frames, f.WF) (h64 : endOff cfg K.sizeofHeader 0 frames < 2 ^ 64) :
+    readTiff (tiffFile old cfg frames) = some (expectedPages cfg frames) := by
+  obtain ⟨hh, hf⟩ := tiffFile_holds old cfg frames hne
+  have r1 := readHeader_of_holds hh
+  have r2 := readChain_of_framesIn cfg K.sizeofHeader 0 frames hf hw h64 (by decide)
+  have hlen := framesIn_length cfg 0 K.sizeofHeader 0 frames hf hne
+  have hk : K.sizeofIfd = 336 := rfl
+  rw [hk] at hlen
+  have hfuel : (tiffFile old cfg frames).length + 1 = (frames.length + 1) + ((tiffFile old cfg frames).length - frames.length) := by
+    omega
+  have hcs : chainStart K.sizeofHeader frames = K.hdrFirstIfd := by
+    cases frames with
+    | nil => exact absurd rfl hne
+    | cons f r => rfl
+  rw [hcs] at r2
+  simp only [readTiff, r1, Option.bind_eq_bind, Option.bind_some]
+  rw [hfuel]
+  exact readChain_mono _ _ _ _ _ r2
+
 end AcqVerif.Tiff
